@@ -8,61 +8,64 @@ namespace Cardutil.Iso
 
 open Cardutil Cardutil.Py Cardutil.Digits
 
-/-- the encoder looks at a message only through `MTI` and the present `DE<bit>` entries -/
-def sameElems (d m : Dict) (bits : List Nat) : Prop :=
-  ∀ bit ∈ bits, (match Dict.get d (.de bit) with | some v => if present v then some v else none | none => none) =
-                (match Dict.get m (.de bit) with | some v => if present v then some v else none | none => none)
+/-- the present value of element `bit` -/
+def presentVal (m : Dict) (bit : Nat) : Option Val :=
+  match Dict.get m (.de bit) with
+  | some v => if present v then some v else none
+  | none => none
 
-theorem encodeBits_congr (env : Env) (cfg : Config) (d m : Dict) (bits : List Nat) (h : sameElems d m bits) :
+/-- two messages the encoder cannot tell apart: the same elements are present and each encodes to
+    the same bytes -/
+def sameEnc (env : Env) (cfg : Config) (d m : Dict) (bits : List Nat) : Prop :=
+  ∀ bit ∈ bits,
+    ((presentVal d bit).isSome = (presentVal m bit).isSome) ∧
+    ∀ x v, presentVal d bit = some x → presentVal m bit = some v →
+      ∀ f, cfg.get bit = some f → encodeField env f x = encodeField env f v
+
+theorem encodeBits_step (env : Env) (cfg : Config) (m : Dict) (bit : Nat) (bits : List Nat) :
+    encodeBits env cfg m (bit :: bits) =
+      match presentVal m bit with
+      | some v =>
+        (match cfg.get bit with
+         | none => .escape .keyError
+         | some f => (encodeField env f v).bind (fun b =>
+            (encodeBits env cfg m bits).bind (fun r => .ok (bit :: r.1, b ++ r.2))))
+      | none => encodeBits env cfg m bits := by
+  simp only [encodeBits, presentVal]
+  cases Dict.get m (.de bit) with
+  | none => rfl
+  | some v =>
+    by_cases hp : present v = true
+    · simp only [hp, if_true]
+      cases cfg.get bit <;> rfl
+    · simp only [hp]; rfl
+
+theorem encodeBits_congr (env : Env) (cfg : Config) (d m : Dict) (bits : List Nat) (h : sameEnc env cfg d m bits) :
     encodeBits env cfg d bits = encodeBits env cfg m bits := by
   induction bits with
   | nil => rfl
   | cons bit bits ih =>
-    have hb := h bit (by simp)
+    obtain ⟨hsome, henc⟩ := h bit (by simp)
     have ih' := ih (fun b hb' => h b (by simp [hb']))
-    simp only [encodeBits]
-    cases hd : Dict.get d (.de bit) with
+    rw [encodeBits_step, encodeBits_step]
+    cases hd : presentVal d bit with
     | none =>
-      rw [hd] at hb
-      cases hm : Dict.get m (.de bit) with
+      rw [hd] at hsome
+      cases hm : presentVal m bit with
       | none => simp [ih']
-      | some v =>
-        rw [hm] at hb
-        simp only at hb
-        by_cases hp : present v = true
-        · simp [hp] at hb
-        · have : present v = false := by simpa using hp
-          simp [this, ih']
+      | some v => rw [hm] at hsome; simp at hsome
     | some x =>
-      rw [hd] at hb
-      simp only at hb
-      by_cases hpx : present x = true
-      · simp only [hpx, if_true] at hb
-        cases hm : Dict.get m (.de bit) with
-        | none => rw [hm] at hb; simp at hb
-        | some v =>
-          rw [hm] at hb
-          simp only at hb
-          by_cases hp : present v = true
-          · simp only [hp, if_true, Option.some.injEq] at hb
-            subst hb
-            simp [hpx, ih']
-          · have : present v = false := by simpa using hp
-            simp [this] at hb
-      · have hpx' : present x = false := by simpa using hpx
-        simp only [hpx', Bool.false_eq_true, if_false] at hb
-        cases hm : Dict.get m (.de bit) with
-        | none => simp [hpx', ih']
-        | some v =>
-          rw [hm] at hb
-          simp only at hb
-          by_cases hp : present v = true
-          · simp [hp] at hb
-          · have : present v = false := by simpa using hp
-            simp [hpx', this, ih']
+      rw [hd] at hsome
+      cases hm : presentVal m bit with
+      | none => rw [hm] at hsome; simp at hsome
+      | some v =>
+        simp only
+        cases hc : cfg.get bit with
+        | none => rfl
+        | some f => simp only [henc x v hd hm f hc, ih']
 
 theorem encodeCore_congr (env : Env) (cfg : Config) (hexBitmap : Bool) (d m : Dict)
-    (hmti : Dict.get d .mti = Dict.get m .mti) (h : sameElems d m allBits) :
+    (hmti : Dict.get d .mti = Dict.get m .mti) (h : sameEnc env cfg d m allBits) :
     encodeCore env cfg hexBitmap d = encodeCore env cfg hexBitmap m := by
   unfold encodeCore encodeMti
   have := encodeBits_congr env cfg d m allBits h
@@ -82,9 +85,12 @@ theorem mem_of_get {d : Dict} {k : Key} {v : Val} (h : Dict.get d k = some v) : 
     · rw [if_neg he] at h
       exact List.mem_cons_of_mem _ (ih h)
 
-/-- without PAN masking the decoded value of a well-formed element is the value itself -/
-theorem wf_exp_eq {env : Env} {bit : Nat} {f : FieldCfg} {v exp : Val} {sub : Dict}
-    (hw : WFField env bit f v exp sub) (hnp : f.proc ≠ .pan ∧ f.proc ≠ .panPrefix) : exp = v := by
+/-- without PAN masking, the decoded value of a well-formed element encodes to the same bytes
+    as the original value (it IS the original value, except that a number / date-time supplied as
+    text comes back typed) -/
+theorem wf_reencode {env : Env} {bit : Nat} {f : FieldCfg} {v exp : Val} {sub : Dict}
+    (hw : WFField env bit f v exp sub) (hnp : f.proc ≠ .pan ∧ f.proc ≠ .panPrefix) :
+    encodeField env f exp = encodeField env f v ∧ present exp = true := by
   cases hw with
   | text t bs sub hproc hty henc hne hfix hvar hsub =>
     have : transform f t = t := by
@@ -94,8 +100,97 @@ theorem wf_exp_eq {env : Env} {bit : Nat} {f : FieldCfg} {v exp : Val} {sub : Di
       · rename_i h; exact absurd h hnp.2
       · rfl
     rw [this]
-  | int n => rfl
-  | date d bs => rfl
-  | icc b sub => rfl
+    exact ⟨rfl, by cases t <;> simp_all [present]⟩
+  | int n => exact ⟨rfl, rfl⟩
+  | intText t n hproc hty hfix hw hne hint hn =>
+    exact ⟨by simp only [encodeField, pyTypeToString, hty, hint], rfl⟩
+  | dateText t d bs hproc hty hfix hne hparse =>
+    exact ⟨by simp only [encodeField, pyTypeToString, hty, hparse], rfl⟩
+  | date d bs => exact ⟨rfl, rfl⟩
+  | icc b sub hproc hty hne => exact ⟨rfl, by cases b <;> simp_all [present]⟩
+
+/-- the expected decoded value of a well-formed element does not depend on the codec: two
+    environments with the same character classes and date parser expect the same value -/
+theorem wf_exp_det {envA envB : Env} (hcl : envA.classes = envB.classes) (hpd : envA.parseDate = envB.parseDate)
+    {bit : Nat} {f : FieldCfg} {v expA expB : Val} {subA subB : Dict}
+    (ha : WFField envA bit f v expA subA) (hb : WFField envB bit f v expB subB) : expA = expB := by
+  cases ha with
+  | text t bs sub hproc hty =>
+    cases hb with
+    | text => rfl
+    | intText t n hproc' hty' => rw [hty] at hty'; simp at hty'
+    | dateText t d bs hproc' hty' => rw [hty] at hty'; simp at hty'
+  | int n => cases hb with | int => rfl
+  | intText t n hproc hty hfix hw hne hint =>
+    cases hb with
+    | text t bs sub hproc' hty' => rw [hty] at hty'; simp at hty'
+    | intText t n' _ _ _ _ _ hint' =>
+      rw [hcl, hint'] at hint
+      injection hint with e
+      rw [e]
+    | dateText t d bs hproc' hty' => rw [hty] at hty'; simp at hty'
+  | dateText t d bs hproc hty hfix hne hparse =>
+    cases hb with
+    | text t bs sub hproc' hty' => rw [hty] at hty'; simp at hty'
+    | intText t n hproc' hty' => rw [hty] at hty'; simp at hty'
+    | dateText t d' bs' _ _ _ _ hparse' =>
+      rw [hpd, hparse'] at hparse
+      injection hparse with e
+      rw [e]
+  | date d bs => cases hb with | date => rfl
+  | icc b sub => cases hb with | icc => rfl
+
+/-- a dictionary `d` whose elements are, bit for bit, values that encode like those of `m` (and
+    which has no other data elements) is indistinguishable from `m` for the encoder -/
+theorem sameEnc_of_elements (env : Env) (cfg : Config) (m d : Dict)
+    (hel : ∀ bit ∈ allBits, ∀ v, Dict.get m (.de bit) = some v → present v = true →
+      ∃ f exp, cfg.get bit = some f ∧ Dict.get d (.de bit) = some exp ∧ present exp = true ∧
+        encodeField env f exp = encodeField env f v)
+    (hkeys : ∀ kv ∈ d, kv.1 = .mti ∨
+        (∃ bit v, kv.1 = .de bit ∧ Dict.get m (.de bit) = some v ∧ present v = true) ∨
+        kv.1.isDerived = true) :
+    sameEnc env cfg d m allBits := by
+  intro bit hb
+  have hnone : ¬ (∃ v, Dict.get m (.de bit) = some v ∧ present v = true) → Dict.get d (.de bit) = none := by
+    intro hno
+    cases hd : Dict.get d (.de bit) with
+    | none => rfl
+    | some x =>
+      exfalso
+      rcases hkeys _ (mem_of_get hd) with h6 | ⟨bit', v', hk, hv', hp''⟩ | h6
+      · simp at h6
+      · simp only at hk
+        injection hk with e
+        subst e
+        exact hno ⟨v', hv', hp''⟩
+      · simp [Key.isDerived] at h6
+  by_cases hex : ∃ v, Dict.get m (.de bit) = some v ∧ present v = true
+  · obtain ⟨v, hm, hp⟩ := hex
+    obtain ⟨f, exp, hcfg, hget, hpe, hre⟩ := hel bit hb v hm hp
+    have hpd : presentVal d bit = some exp := by simp [presentVal, hget, hpe]
+    have hpm : presentVal m bit = some v := by simp [presentVal, hm, hp]
+    refine ⟨by rw [hpd, hpm]; rfl, ?_⟩
+    intro x v' hx hv' f' hf'
+    rw [hpd] at hx; rw [hpm] at hv'
+    injection hx with e1; injection hv' with e2
+    subst e1; subst e2
+    rw [hcfg] at hf'
+    injection hf' with e3
+    subst e3
+    exact hre
+  · have hd := hnone hex
+    have hpd : presentVal d bit = none := by simp [presentVal, hd]
+    have hpm : presentVal m bit = none := by
+      unfold presentVal
+      cases hm : Dict.get m (.de bit) with
+      | none => rfl
+      | some v =>
+        by_cases hp : present v = true
+        · exact absurd ⟨v, hm, hp⟩ hex
+        · simp [hp]
+    refine ⟨by rw [hpd, hpm], ?_⟩
+    intro x v' hx
+    rw [hpd] at hx
+    simp at hx
 
 end Cardutil.Iso
